@@ -1,5 +1,7 @@
 import ProductMD.Proofs.ImagesBytes
 import ProductMD.Proofs.JsonRoundTrip
+import ProductMD.Proofs.ImagesRep
+import ProductMD.Properties.C08
 /-!
 # C02 — image manifests survive a write/read cycle unchanged
 
@@ -460,8 +462,9 @@ theorem C02_hjson_witness :
                    | .error _ => false)
      | .error _ => false) = true := by decide +kernel
 
-/-- **C02_bytes, parser modelled.**  Same conclusion as `C02_bytes` with `parse := JsonParse.parseWith lim`. -/
-theorem C02_bytes_parsed (lim : Nat) (m : ImgState)
+/-- **C02_bytes, parser modelled, first form** (two hypotheses about the library model, `hrep` and `hord`; both are discharged
+below: `C02_bytes_parsed`).  Same conclusion as `C02_bytes` with `parse := JsonParse.parseWith lim`. -/
+theorem C02_bytes_parsed_hyp (lim : Nat) (m : ImgState)
     (hc : m.compose.validate = .ok ())
     (hi : ∀ i ∈ m.cells.all, i.validate = .ok () ∧ ProperInts i)
     (ha : ∀ t ∈ triples m.cells, Gen.RPM_ARCHES.contains t.2.1 = true ∧ refusedArches.contains t.2.1 = false)
@@ -494,10 +497,143 @@ theorem C02_bytes_parsed (lim : Nat) (m : ImgState)
   rw [hp]
   exact h1
 
-/-- non-vacuity: `hrep` and `hord` hold of the example manifest by evaluation (default digit limit) -/
-example : (match (serialize wGood).2 with
+/-- non-vacuity: `hrep` and `hord` hold of a one-image manifest by evaluation (default digit limit) -/
+example : (match (serialize { compose := wCompose, cells := [(L "Server", [(L "x86_64", [(0, wC)])])] }).2 with
     | .ok doc => Mf.jsonRep doc && JsonParse.numsOk JsonParse.defaultLimit doc
         && (reloadDumps (fun _ => .ok (PyVal.canon doc)) (JsonText.dumps doc) == reloadDumps (fun _ => .ok doc) (JsonText.dumps doc))
+    | .error _ => false) = true := by decide +kernel
+
+/-! ## the reader does not depend on the key order of the document — `hord` and `hrep` discharged
+
+`Img.reload_canon`: for the document `doc` written for a manifest `m` (valid, admissible arches, `Uniq`, containers holding
+JSON values), `deserialize doc` and `deserialize (canon doc)` — the document as the writer built it and the same document
+with every dict in sorted key order, which is what a JSON parser returns for the written text — both succeed, and the two
+manifests are the same content (`Img.Same`: equal compose section, filings equal up to a permutation of the variant dict,
+of every arch dict and of every image set, `checksums` / `additional_variants` up to entry order).  The add-time effects
+of the order are accounted for: the header version is the current one on both sides (scan enforced, no `src` re-filing),
+and `Uniq` makes the duplicate-identity scan succeed in every order (identity and checksums `==` are invariant under
+canonicalisation: `canonC_identity`).  With `C08_perm_images_bytes` (the writer does not depend on these orders) the
+byte-level round trip through the modelled CPython parser follows from hypotheses on the OBJECT only. -/
+
+namespace Img
+
+/-- **the images reader is independent of dict key order** (on written documents) -/
+theorem reload_canon (m : ImgState)
+    (hc : m.compose.validate = .ok ())
+    (hi : ∀ i ∈ m.cells.all, i.validate = .ok () ∧ ProperInts i ∧ ContainersRep i)
+    (ha : ∀ t ∈ triples m.cells, Gen.RPM_ARCHES.contains t.2.1 = true ∧ refusedArches.contains t.2.1 = false)
+    (hu : Uniq m.cells) (doc : PyVal) (hs : (serialize m).2 = .ok doc) :
+    ∃ m' m'', deserialize doc = .ok m' ∧ deserialize (PyVal.canon doc) = .ok m'' ∧ Img.Same m' m''
+      ∧ (triples m'.cells).Perm (triples m.cells) := by
+  have hi' : ∀ i ∈ m.cells.all, i.validate = .ok () ∧ ProperInts i := fun i h => ⟨(hi i h).1, (hi i h).2.1⟩
+  obtain ⟨doc0, m', hs0, hd0, hperm, hcomp, _⟩ := C02_readback_partial m hc hi' ha hu
+  rw [hs] at hs0; injection hs0 with hs0; subst hs0
+  obtain ⟨cd, hcd⟩ : ∃ cd, m.compose.serialize = .ok cd := by
+    simp only [Compose.serialize, hc, bind, Except.bind]; exact ⟨_, rfl⟩
+  have hdoc := serialize_doc m cd hcd (fun i h => (hi i h).1)
+  rw [hs] at hdoc; injection hdoc with hdoc
+  obtain ⟨m'', hd2, hcomp2, _, hperm2⟩ := deserialize_canon_doc m hi ha hu cd hcd
+  rw [← hdoc] at hd2
+  refine ⟨m', m'', hd0, hd2, ⟨hcomp.trans hcomp2.symm, ?_⟩, hperm⟩
+  -- filings: m' ~ m, related elementwise to the canonicalised filings, which are a permutation of those of m''
+  have hall2 : All2 FSame (triples m.cells) ((triples m.cells).map fun t => (t.1, t.2.1, canonC t.2.2)) := by
+    have hmem : ∀ u ∈ triples m.cells, ContainersRep u.2.2 := by
+      intro u hu'
+      exact (hi _ (by rw [all_eq]; exact List.mem_map.mpr ⟨u, hu', rfl⟩)).2.2
+    generalize triples m.cells = l at hmem
+    induction l with
+    | nil => exact .nil
+    | cons x xs ih =>
+      exact .cons ⟨rfl, rfl, canonC_same x.2.2 (hmem x List.mem_cons_self)⟩ (ih fun u hu' => hmem u (List.mem_cons_of_mem _ hu'))
+  obtain ⟨l', hl', hall'⟩ := PermR.all2_perm_swap hall2 hperm2.symm
+  exact ⟨l', hperm.trans hl', hall'⟩
+
+end Img
+
+/-- `Img.reload_canon` under the property's name (registered and audited with the other C02 theorems) -/
+theorem C02_reload_canon (m : ImgState)
+    (hc : m.compose.validate = .ok ())
+    (hi : ∀ i ∈ m.cells.all, i.validate = .ok () ∧ ProperInts i ∧ ContainersRep i)
+    (ha : ∀ t ∈ triples m.cells, Gen.RPM_ARCHES.contains t.2.1 = true ∧ refusedArches.contains t.2.1 = false)
+    (hu : Uniq m.cells) (doc : PyVal) (hs : (serialize m).2 = .ok doc) :
+    ∃ m' m'', deserialize doc = .ok m' ∧ deserialize (PyVal.canon doc) = .ok m'' ∧ Img.Same m' m''
+      ∧ (triples m'.cells).Perm (triples m.cells) := Img.reload_canon m hc hi ha hu doc hs
+
+/-- **C02_bytes through the modelled CPython parser, hypotheses on the object only.**  For a manifest whose compose section
+and images validate, whose integer attributes are ints, whose `checksums` / `additional_variants` hold JSON values, whose cells
+are keyed by admissible arches, with unique identities and distinct paths per cell, and whose integers fit the interpreter's
+digit limit `lim` (nothing to check for `lim = 0`, or below 641 digits: `numsFit_zero`, `JsonParse.intFits_of_length`): the text
+`dumps()` returns, parsed by `JsonParse.parseWith lim` (the model of `json.loads`), loaded and dumped again, is the same text. -/
+theorem C02_bytes_parsed (lim : Nat) (m : ImgState)
+    (hc : m.compose.validate = .ok ())
+    (hi : ∀ i ∈ m.cells.all, i.validate = .ok () ∧ ProperInts i ∧ ContainersRep i ∧ NumsFit lim i)
+    (hrespin : JsonParse.numsOk lim m.compose.respin = true)
+    (ha : ∀ t ∈ triples m.cells, Gen.RPM_ARCHES.contains t.2.1 = true ∧ refusedArches.contains t.2.1 = false)
+    (hu : Uniq m.cells) (hd : DistinctPaths m.cells)
+    (t : Str) (ht : (dumps m).2 = .ok t) : reloadDumps (JsonParse.parseWith lim) t = .ok t := by
+  have hi2 : ∀ i ∈ m.cells.all, i.validate = .ok () ∧ ProperInts i := fun i h => ⟨(hi i h).1, (hi i h).2.1⟩
+  have hi3 : ∀ i ∈ m.cells.all, i.validate = .ok () ∧ ProperInts i ∧ ContainersRep i := fun i h => ⟨(hi i h).1, (hi i h).2.1, (hi i h).2.2.1⟩
+  obtain ⟨doc, _, hs, _, _, _, _⟩ := C02_readback_partial m hc hi2 ha hu
+  obtain ⟨m', m'', hd1, hd2, hsame, hperm⟩ := Img.reload_canon m hc hi3 ha hu doc hs
+  -- the bytes of the manifest read from the document as written
+  have h1 := C02_bytes (fun _ => .ok doc) m hc hi2 ha hu hd (fun d hd' => by rw [hs] at hd'; cases hd'; rfl) t ht
+  have hm' : (dumps m').2 = .ok t := by
+    unfold reloadDumps at h1
+    simpa only [loads, hd1, C02_images_no_validators, bind, Except.bind] using h1
+  -- distinct paths carry over to m'
+  have hdp : Img.DistinctPaths (triples m'.cells) := by
+    intro v a
+    have := hd v a
+    have hp := ((hperm.filter fun t => t.1 == v && t.2.1 == a).map fun t : Str × Str × Image => pathKey t.2.2.dict)
+    unfold cellFilings
+    refine hp.nodup_iff.mpr ?_
+    have e : (fun t : Str × Str × Image => pathKey t.2.2.dict) = fun t => pathStr t.2.2 := by
+      funext t; simp only [pathKey_dict, pathStr]; rfl
+    rw [e]; exact this
+  have hm'' := C08_perm_images_bytes m' m'' hsame hdp t hm'
+  -- the text is the printed document, and the parser returns its key-sorted form
+  have htext : t = JsonText.dumps doc := by
+    have ht' := ht
+    unfold dumps at ht'
+    rw [C02_images_no_validators] at ht'
+    simp only at ht'
+    cases hsx : serialize m with
+    | mk sx r =>
+      rw [hsx] at hs ht'
+      simp only at hs
+      subst hs
+      simp only at ht'
+      split at ht'
+      · cases ht'; rfl
+      · cases ht'
+  obtain ⟨cd, hcd⟩ : ∃ cd, m.compose.serialize = .ok cd := by
+    simp only [Compose.serialize, hc, bind, Except.bind]; exact ⟨_, rfl⟩
+  have hdoc := serialize_doc m cd hcd (fun i h => (hi i h).1)
+  rw [hs] at hdoc; injection hdoc with hdoc
+  have hrep := serialized_doc_rep lim m hi hrespin cd hcd
+  rw [← hdoc] at hrep
+  have hp := JsonParse.parseWith_dumps lim doc hrep.1 hrep.2
+  unfold reloadDumps
+  rw [htext, hp]
+  simp only [loads, hd2, C02_images_no_validators, bind, Except.bind]
+  rw [← htext]; exact hm''
+
+/-- non-vacuity: the object-level hypotheses hold of the example manifest `wGood` (default digit limit) -/
+example : ∀ i ∈ wGood.cells.all, i.validate = .ok () ∧ ProperInts i ∧ ContainersRep i ∧ NumsFit JsonParse.defaultLimit i := by
+  intro i hi
+  have : i = wA ∨ i = wC := by
+    simp only [wGood, Cells.all, List.flatMap_cons, List.flatMap_nil, List.map_cons, List.map_nil, List.append_nil,
+      List.cons_append, List.nil_append, List.mem_cons, List.not_mem_nil, or_false] at hi
+    rcases hi with h | h | h | h <;> simp [h]
+  rcases this with rfl | rfl
+  · exact ⟨by decide +kernel, ⟨⟨_, rfl⟩, ⟨_, rfl⟩, ⟨_, rfl⟩, ⟨_, rfl⟩⟩, ⟨by decide +kernel, by decide +kernel⟩,
+      by decide +kernel, by decide +kernel, by decide +kernel, by decide +kernel, by decide +kernel, by decide +kernel⟩
+  · exact ⟨by decide +kernel, ⟨⟨_, rfl⟩, ⟨_, rfl⟩, ⟨_, rfl⟩, ⟨_, rfl⟩⟩, ⟨by decide +kernel, by decide +kernel⟩,
+      by decide +kernel, by decide +kernel, by decide +kernel, by decide +kernel, by decide +kernel, by decide +kernel⟩
+example : JsonParse.numsOk JsonParse.defaultLimit wGood.compose.respin = true := by decide +kernel
+/-- … and the conclusion on it, by evaluation: parsed by the modelled parser, loaded and dumped, the text is unchanged -/
+example : (match (dumps { compose := wCompose, cells := [(L "Server", [(L "x86_64", [(0, wC)])])] }).2 with
+    | .ok t => reloadDumps (JsonParse.parseWith JsonParse.defaultLimit) t == .ok t
     | .error _ => false) = true := by decide +kernel
 
 end PM
